@@ -66,10 +66,10 @@ theorem KInv.sameTables {cenv : CEnv} {B : Nat} {sm sm' : SymMap} (h : KInv cenv
   exact h.older.transport fun i _ => hrec i
 
 /-- a `defvar` in the body: the new variable shadows what was in scope under its name -/
-theorem PInv.addVar {cenv : CEnv} {N : Std.HashMap String Nat} {rid : Nat} {ps : Params} {bv gv : Env} {outer : List Scope} {xt : XTab}
-    {env : Env} {c c' : IndexCtx} (h : PInv cenv N rid ps bv gv outer xt env c) (v : Variable) (hp : isCoreTy v.typ = true)
+theorem PInv.addVar {cenv : CEnv} {N : Std.HashMap String Nat} {rid : Nat} {ps : Params} {bv gv : Env} {outer : List Scope} {xt : XTab} {dt : DTabs}
+    {env : Env} {c c' : IndexCtx} (h : PInv cenv N rid ps bv gv outer xt dt env c) (v : Variable) (hp : isCoreTy v.typ = true)
     (hrun : (scopesAddVariable v).run c = .ok ((), c')) :
-    c'.diagnostics = c.diagnostics ∧ PInv cenv N rid ps ((v.name, v.typ) :: bv) gv outer xt env c' := by
+    c'.diagnostics = c.diagnostics ∧ PInv cenv N rid ps ((v.name, v.typ) :: bv) gv outer xt dt env c' := by
   obtain ⟨sc, hs, hk, hv, ho⟩ := h.top
   have hkd : Scopes.isDefsetKind sc.kind = false := by rw [hk]; rfl
   rw [scopesAddVariable_run_top v c sc outer hs hkd] at hrun
@@ -83,7 +83,9 @@ theorem PInv.addVar {cenv : CEnv} {N : Std.HashMap String Nat} {rid : Nat} {ps :
     exact getElem?_push_of_some _ _ _ _ hx
   refine ⟨rfl, ⟨h.k.sameTables e1 e2 e3 e4, ?_, by show _ = (c.symbolMap.addVariable v).2.recordList.size; rw [e1]; exact h.newest,
     ?_, ?_, h.trace, by show (c.symbolMap.addVariable v).2.nameToClass = N; rw [e4]; exact h.ntc,
-    h.x.mono (Nat.le_refl _) (fun _ _ _ => by show (c.symbolMap.addVariable v).2.nameToClass[_]? = _; rw [e4])⟩⟩
+    h.x.mono (Nat.le_refl _) (fun _ _ _ => by show (c.symbolMap.addVariable v).2.nameToClass[_]? = _; rw [e4]),
+    h.d.transport h.older1 (fun i _ => by rw [hrec i]) (fun i _ => by rw [hrec i])
+      (fun _ _ _ => by show (c.symbolMap.addVariable v).2.nameToDef[_]? = _; simp [SymMap.addVariable, SymMap.logDefine])⟩⟩
   · refine ⟨_, rfl, hk, ?_, ho.mono hkeep⟩
     intro name
     rw [Env.get_cons]
@@ -117,11 +119,11 @@ section core5
 variable (k : Nat)
 
 /-- the value of a `defvar`: a literal or an identifier in scope; its type is the one `coreValTy` computes -/
-theorem value5_run (cenv : CEnv) (N : Std.HashMap String Nat) (rid : Nat) (ps : Params) (bv gv : Env) (outer : List Scope) (xt : XTab)
-    (env : Env) (t : Ty) (v : PTree) (c : IndexCtx) (hinv : PInv cenv N rid ps bv gv outer xt env c)
+theorem value5_run (cenv : CEnv) (N : Std.HashMap String Nat) (rid : Nat) (ps : Params) (bv gv : Env) (outer : List Scope) (xt : XTab) (dt : DTabs)
+    (env : Env) (t : Ty) (v : PTree) (c : IndexCtx) (hinv : PInv cenv N rid ps bv gv outer xt dt env c)
     (hty : coreValTy (bv ++ (env ++ (ps.env ++ gv))) v = some t) :
     isCoreTy t = true ∧ ∃ c1, ((mkRec (k + 1)).value v).run c = .ok (some t, c1) ∧ c1.diagnostics = c.diagnostics ∧
-      PInv cenv N rid ps bv gv outer xt env c1 := by
+      PInv cenv N rid ps bv gv outer xt dt env c1 := by
   obtain ⟨f, rest, hft⟩ : ∃ f rest, c.fileTrace = f :: rest := by
     cases hc : c.fileTrace with
     | nil => exact absurd hc hinv.trace
@@ -201,10 +203,10 @@ theorem value5_run (cenv : CEnv) (N : Std.HashMap String Nat) (rid : Nat) (ps : 
 
 /-- `defvar x = v;` in a record body -/
 theorem defvar5_step (cenv : CEnv) (N : Std.HashMap String Nat) (n : PTree) (rid : Nat) (ps : Params) (bv gv : Env)
-    (outer : List Scope) (xt : XTab) (env : Env) (name : String) (t : Ty) (c c' : IndexCtx) (hinv : PInv cenv N rid ps bv gv outer xt env c)
+    (outer : List Scope) (xt : XTab) (dt : DTabs) (env : Env) (name : String) (t : Ty) (c c' : IndexCtx) (hinv : PInv cenv N rid ps bv gv outer xt dt env c)
     (hchk : coreDefvar5 (bv ++ (env ++ (ps.env ++ gv))) n = some (name, t))
     (hrun : (indexDefvar (mkRec (k + 1)) n).run c = .ok ((), c')) :
-    c'.diagnostics = c.diagnostics ∧ PInv cenv N rid ps ((name, t) :: bv) gv outer xt env c' := by
+    c'.diagnostics = c.diagnostics ∧ PInv cenv N rid ps ((name, t) :: bv) gv outer xt dt env c' := by
   obtain ⟨f, rest, hft⟩ : ∃ f rest, c.fileTrace = f :: rest := by
     cases hc : c.fileTrace with
     | nil => exact absurd hc hinv.trace
@@ -231,7 +233,7 @@ theorem defvar5_step (cenv : CEnv) (N : Std.HashMap String Nat) (n : PTree) (rid
   | some t0 =>
   rw [hty] at hchk
   cases hchk
-  obtain ⟨hpt, c1, hvr, hd1, hinv1⟩ := value5_run k cenv N rid ps bv gv outer xt env t v c hinv hty
+  obtain ⟨hpt, c1, hvr, hd1, hinv1⟩ := value5_run k cenv N rid ps bv gv outer xt dt env t v c hinv hty
   have hid := identOf_of f nameNode name se hiv hir
   unfold indexDefvar at hrun
   simp only [StateT.run_bind, hnn, utilsIdentifier_runOf nameNode c f rest hft, hid, Except.ok_bind, hvv, hvr,
@@ -241,29 +243,29 @@ theorem defvar5_step (cenv : CEnv) (N : Std.HashMap String Nat) (n : PTree) (rid
 
 /-- the items of a body of the fifth core: field definitions, field lets and `defvar`s; the variables and the fields
 in scope afterwards -/
-def coreItems5 (tyOf : PTree → Option Ty) (lists : Bool) (back : Env) : Env → Env → List PTree → Option (Env × Env)
+def coreItems5 (tyOf : PTree → Option Ty) (lists : Bool) (initX : Env → Ty → PTree → Bool) (back : Env) : Env → Env → List PTree → Option (Env × Env)
   | bv, env, [] => some (bv, env)
   | bv, env, it :: rest =>
     if it.kind == .FieldDef then
-      match coreFieldDefG tyOf lists bv env back it with
-      | some env' => coreItems5 tyOf lists back bv env' rest
+      match coreFieldDefG tyOf lists initX bv env back it with
+      | some env' => coreItems5 tyOf lists initX back bv env' rest
       | none => none
     else if it.kind == .FieldLet then
-      if coreFieldLetG lists bv env back it then coreItems5 tyOf lists back bv env rest else none
+      if coreFieldLetG lists initX bv env back it then coreItems5 tyOf lists initX back bv env rest else none
     else if it.kind == .Defvar then
       match coreDefvar5 (bv ++ (env ++ back)) it with
-      | some p => coreItems5 tyOf lists back (p :: bv) env rest
+      | some p => coreItems5 tyOf lists initX back (p :: bv) env rest
       | none => none
     else none
 
-theorem items5_step (tyOf : PTree → Option Ty) (lists : Bool) (hk : lists = true → 0 < k) (cenv : CEnv) (N : Std.HashMap String Nat) (items : List PTree) (rid : Nat) (ps : Params) (gv : Env)
-    (outer : List Scope) (xt : XTab) (bv env bv' env' : Env) (c c' : IndexCtx) (u : PUnit)
-    (htyO : TyOracle k tyOf cenv N rid ps gv outer xt)
-    (hinv : PInv cenv N rid ps bv gv outer xt env c) (hchk : coreItems5 tyOf lists (ps.env ++ gv) bv env items = some (bv', env'))
+theorem items5_step (tyOf : PTree → Option Ty) (lists : Bool) (hk : lists = true → 0 < k) (initX : Env → Ty → PTree → Bool) (cenv : CEnv) (N : Std.HashMap String Nat) (items : List PTree) (rid : Nat) (ps : Params) (gv : Env)
+    (outer : List Scope) (xt : XTab) (dt : DTabs) (bv env bv' env' : Env) (c c' : IndexCtx) (u : PUnit)
+    (htyO : TyOracle k tyOf cenv N rid ps gv outer xt dt) (hX : InitOracle k initX cenv N rid ps gv outer xt dt)
+    (hinv : PInv cenv N rid ps bv gv outer xt dt env c) (hchk : coreItems5 tyOf lists initX (ps.env ++ gv) bv env items = some (bv', env'))
     (hrun : (forIn items PUnit.unit fun item _ => do
         indexBodyItem (mkRec (k + 1)) item
         pure (ForInStep.yield PUnit.unit)).run c = .ok (u, c')) :
-    c'.diagnostics = c.diagnostics ∧ PInv cenv N rid ps bv' gv outer xt env' c' := by
+    c'.diagnostics = c.diagnostics ∧ PInv cenv N rid ps bv' gv outer xt dt env' c' := by
   induction items generalizing bv env c with
   | nil =>
     simp only [List.forIn_nil, StateT.run_pure] at hrun
@@ -277,7 +279,7 @@ theorem items5_step (tyOf : PTree → Option Ty) (lists : Bool) (hk : lists = tr
     cases j2
     by_cases hk1 : it.kind = .FieldDef
     · simp only [hk1, beq_self_eq_true, if_true] at hchk
-      cases hfd : coreFieldDefG tyOf lists bv env (ps.env ++ gv) it with
+      cases hfd : coreFieldDefG tyOf lists initX bv env (ps.env ++ gv) it with
       | none => rw [hfd] at hchk; cases hchk
       | some env1 =>
         rw [hfd] at hchk
@@ -285,20 +287,20 @@ theorem items5_step (tyOf : PTree → Option Ty) (lists : Bool) (hk : lists = tr
           unfold indexBodyItem at j1
           simp only [hk1] at j1
           exact j1
-        obtain ⟨hd1, hinv1⟩ := fieldDefG_step k tyOf lists hk cenv N it rid ps bv gv outer xt env env1 c c1 hinv htyO hfd j1'
+        obtain ⟨hd1, hinv1⟩ := fieldDefG_step k tyOf lists hk initX cenv N it rid ps bv gv outer xt dt env env1 c c1 hinv htyO hX hfd j1'
         obtain ⟨hd2, r⟩ := ih bv env1 c1 hinv1 hchk hrun
         exact ⟨hd2.trans hd1, r⟩
     · have hb1 : (it.kind == SyntaxKind.FieldDef) = false := by simpa using hk1
       simp only [hb1, Bool.false_eq_true, if_false] at hchk
       by_cases hk2 : it.kind = .FieldLet
       · simp only [hk2, beq_self_eq_true, if_true] at hchk
-        by_cases hl : coreFieldLetG lists bv env (ps.env ++ gv) it = true
+        by_cases hl : coreFieldLetG lists initX bv env (ps.env ++ gv) it = true
         · simp only [hl, if_true] at hchk
           have j1' : (indexFieldLet (mkRec (k + 1)) it).run c = .ok ((), c1) := by
             unfold indexBodyItem at j1
             simp only [hk2] at j1
             exact j1
-          obtain ⟨hd1, hinv1⟩ := fieldLetG_step k lists hk cenv N it rid ps bv gv outer xt env c c1 hinv hl j1'
+          obtain ⟨hd1, hinv1⟩ := fieldLetG_step k lists hk initX cenv N it rid ps bv gv outer xt dt env c c1 hinv hX hl j1'
           obtain ⟨hd2, r⟩ := ih bv env c1 hinv1 hchk hrun
           exact ⟨hd2.trans hd1, r⟩
         · simp only [hl, Bool.false_eq_true, if_false] at hchk
@@ -316,7 +318,7 @@ theorem items5_step (tyOf : PTree → Option Ty) (lists : Bool) (hk : lists = tr
               unfold indexBodyItem at j1
               simp only [hk3] at j1
               exact j1
-            obtain ⟨hd1, hinv1⟩ := defvar5_step k cenv N it rid ps bv gv outer xt env name t c c1 hinv hdv j1'
+            obtain ⟨hd1, hinv1⟩ := defvar5_step k cenv N it rid ps bv gv outer xt dt env name t c c1 hinv hdv j1'
             obtain ⟨hd2, r⟩ := ih ((name, t) :: bv) env c1 hinv1 hchk hrun
             exact ⟨hd2.trans hd1, r⟩
         · have hb3 : (it.kind == SyntaxKind.Defvar) = false := by simpa using hk3
@@ -332,15 +334,15 @@ def coreRecordBody5 (tyOf : PTree → Option Ty) (lists : Bool) (cenv : CEnv) (b
     | some env =>
       match Ast.recordBodyBody rb with
       | none => some env
-      | some b => (coreItems5 tyOf lists back [] env (Ast.bodyItems b)).map (·.2)
+      | some b => (coreItems5 tyOf lists noInitX back [] env (Ast.bodyItems b)).map (·.2)
     | none => none
 
 theorem recordBody5_step (tyOf : PTree → Option Ty) (lists : Bool) (hk : lists = true → 0 < k) (cenv : CEnv) (N : Std.HashMap String Nat) (rb : PTree) (rid : Nat) (ps : Params) (gv : Env)
-    (outer : List Scope) (xt : XTab) (env' : Env) (c c' : IndexCtx) (htyO : TyOracle k tyOf cenv N rid ps gv outer xt)
-    (hinv : PInv cenv N rid ps [] gv outer xt [] c)
+    (outer : List Scope) (xt : XTab) (dt : DTabs) (env' : Env) (c c' : IndexCtx) (htyO : TyOracle k tyOf cenv N rid ps gv outer xt dt)
+    (hinv : PInv cenv N rid ps [] gv outer xt dt [] c)
     (hchk : coreRecordBody5 tyOf lists cenv (ps.env ++ gv) rb = some env')
     (hrun : (indexRecordBody (mkRec (k + 1)) rb).run c = .ok ((), c')) :
-    c'.diagnostics = c.diagnostics ∧ ∃ bv, PInv cenv N rid ps bv gv outer xt env' c' := by
+    c'.diagnostics = c.diagnostics ∧ ∃ bv, PInv cenv N rid ps bv gv outer xt dt env' c' := by
   unfold coreRecordBody5 at hchk
   unfold indexRecordBody at hrun
   cases hp : Ast.recordBodyParentClassList rb with
@@ -354,13 +356,13 @@ theorem recordBody5_step (tyOf : PTree → Option Ty) (lists : Bool) (hk : lists
       rw [hps] at hchk
       simp only at hchk
       obtain ⟨_, c1, h1, hrun⟩ := IxM.run_bind_ok hrun
-      obtain ⟨hd1, hinv1⟩ := parents4_step k cenv N pcl rid ps gv outer xt [] env c c1 hinv hps h1
+      obtain ⟨hd1, hinv1⟩ := parents4_step k cenv N pcl rid ps gv outer xt dt [] env c c1 hinv hps h1
       cases hb : Ast.recordBodyBody rb with
       | none => rw [hb] at hrun hchk; cases hrun; cases hchk; exact ⟨hd1, [], hinv1⟩
       | some b =>
         rw [hb] at hrun hchk
         simp only at hrun hchk
-        cases hit : coreItems5 tyOf lists (ps.env ++ gv) [] env (Ast.bodyItems b) with
+        cases hit : coreItems5 tyOf lists noInitX (ps.env ++ gv) [] env (Ast.bodyItems b) with
         | none => rw [hit] at hchk; cases hchk
         | some p =>
           obtain ⟨bv', env2⟩ := p
@@ -370,7 +372,7 @@ theorem recordBody5_step (tyOf : PTree → Option Ty) (lists : Bool) (hk : lists
           obtain ⟨u, c2, h2, h3⟩ := IxM.run_bind_ok hrun
           simp only [StateT.run_pure] at h3
           cases h3
-          obtain ⟨hd2, hinv2⟩ := items5_step k tyOf lists hk cenv N _ rid ps gv outer xt [] env bv' env2 c1 c' u htyO hinv1 hit h2
+          obtain ⟨hd2, hinv2⟩ := items5_step k tyOf lists hk noInitX cenv N _ rid ps gv outer xt dt [] env bv' env2 c1 c' u htyO (noInitX_oracle k cenv N rid ps gv outer xt dt) hinv1 hit h2
           exact ⟨hd2.trans hd1, bv', hinv2⟩
 
 
@@ -411,7 +413,7 @@ theorem coreValTy_top_run (cenv : CEnv) (gv : Env) (t : Ty) (v : PTree) (c : Ind
     (hty : coreValTy gv v = some t) :
     isCoreTy t = true ∧ ∃ c1, ((mkRec (k + 1)).value v).run c = .ok (some t, c1) ∧ c1.diagnostics = c.diagnostics ∧
       TabInv5 cenv gv c1 ∧ c1.symbolMap.nameToClass = c.symbolMap.nameToClass ∧
-      c1.symbolMap.recordList = c.symbolMap.recordList := by
+      c1.symbolMap.recordList = c.symbolMap.recordList ∧ c1.symbolMap.nameToDef = c.symbolMap.nameToDef := by
   obtain ⟨f, rest, hft⟩ : ∃ f rest, c.fileTrace = f :: rest := by
     cases hc : c.fileTrace with
     | nil => exact absurd hc h.tab.trace
@@ -421,7 +423,7 @@ theorem coreValTy_top_run (cenv : CEnv) (gv : Env) (t : Ty) (v : PTree) (c : Ind
   | some lt =>
     rw [hlt] at hty
     cases hty
-    exact ⟨isCoreTy_of_prim (lit_isPrim v t hlt), c, indexValue_lit _ v t hlt _, rfl, h, rfl, rfl⟩
+    exact ⟨isCoreTy_of_prim (lit_isPrim v t hlt), c, indexValue_lit _ v t hlt _, rfl, h, rfl, rfl, rfl⟩
   | none =>
     rw [hlt] at hty
     simp only at hty
@@ -445,7 +447,7 @@ theorem coreValTy_top_run (cenv : CEnv) (gv : Env) (t : Ty) (v : PTree) (c : Ind
         (indexValue_ident (mkRec k) v id hidv _).trans
           (indexIdentifierValue_var id _ f rest hft vname ⟨f, vse.1, vse.2⟩ (identOf_of f id vname vse hv1 hv2) vid hfl)
       rw [var_typ_of_getElem? _ _ _ h2, h3] at hvrun
-      refine ⟨hpt, _, hvrun, rfl, ?_, rfl, rfl⟩
+      refine ⟨hpt, _, hvrun, rfl, ?_, rfl, rfl, rfl⟩
       exact h.after (h.tab.same ⟨rfl, rfl, rfl, rfl, rfl, rfl, rfl, rfl⟩) rfl (ArenaKeep.of_eq rfl rfl rfl)
 
 /-- `defvar x = v;` at top level -/
@@ -453,7 +455,8 @@ theorem defvarTop5_step (cenv : CEnv) (gv : Env) (n : PTree) (name : String) (t 
     (h : TabInv5 cenv gv c) (hchk : coreDefvar5 gv n = some (name, t))
     (hrun : (indexDefvar (mkRec (k + 1)) n).run c = .ok ((), c')) :
     c'.diagnostics = c.diagnostics ∧ TabInv5 cenv ((name, t) :: gv) c' ∧
-      c'.symbolMap.nameToClass = c.symbolMap.nameToClass ∧ c'.symbolMap.recordList = c.symbolMap.recordList := by
+      c'.symbolMap.nameToClass = c.symbolMap.nameToClass ∧ c'.symbolMap.recordList = c.symbolMap.recordList ∧
+      c'.symbolMap.nameToDef = c.symbolMap.nameToDef := by
   obtain ⟨f, rest, hft⟩ : ∃ f rest, c.fileTrace = f :: rest := by
     cases hc : c.fileTrace with
     | nil => exact absurd hc h.tab.trace
@@ -480,7 +483,7 @@ theorem defvarTop5_step (cenv : CEnv) (gv : Env) (n : PTree) (name : String) (t 
   | some t0 =>
   rw [hty] at hchk
   cases hchk
-  obtain ⟨hpt, c1, hvr, hd1, h1, hn1, hr1⟩ := coreValTy_top_run k cenv gv t v c h hty
+  obtain ⟨hpt, c1, hvr, hd1, h1, hn1, hr1, hnd1⟩ := coreValTy_top_run k cenv gv t v c h hty
   have hft1 : c1.fileTrace = f :: rest := by
     have := ((mkRec_attr (k + 1)).1 v).run _ _ _ hvr
     rw [this.trace]; exact hft
@@ -499,7 +502,9 @@ theorem defvarTop5_step (cenv : CEnv) (gv : Env) (n : PTree) (name : String) (t 
     intro i x hx
     rw [e5]
     exact getElem?_push_of_some _ _ _ _ hx
-  refine ⟨hd1, ⟨⟨?_, h1.tab.trace⟩, _, rfl, hk, ?_⟩, e4.trans hn1, e1.trans hr1⟩
+  have e6 : (c1.symbolMap.addVariable { name := name, typ := t, kind := .defvar, defineLoc := ⟨f, se.1, se.2⟩ }).2.nameToDef =
+      c1.symbolMap.nameToDef := by simp [SymMap.addVariable, SymMap.logDefine]
+  refine ⟨hd1, ⟨⟨?_, h1.tab.trace⟩, _, rfl, hk, ?_⟩, e4.trans hn1, e1.trans hr1, e6.trans hnd1⟩
   · show KInv cenv (c1.symbolMap.addVariable _).2.recordList.size (c1.symbolMap.addVariable _).2
     rw [e1]
     exact h1.tab.k.sameTables e1 e2 e3 e4
@@ -575,11 +580,11 @@ theorem indexStatement5_step (lists : Bool) (hk : lists = true → 0 < k) (cenv 
     | some ce =>
       rw [hc] at hchk
       cases hchk
-      obtain ⟨q, ht, hs, _⟩ := indexClassG_step k _ gv
-        (fun cenv1 xt' ps rb env N rid outer c6 c7 hinv hrb h7 =>
-          recordBody5_step k (coreTypeOf lists) lists hk cenv1 N rb rid ps gv outer xt' env c6 c7
-            (coreTypeOf_oracle k lists hk cenv1 N rid ps gv outer xt') hinv hrb h7)
-        cenv _ [] s c c' h.tab h.outer (XInv.nil _ _) hc hrun
+      obtain ⟨q, ht, hs, _⟩ := indexClassG_step k _ gv {} (fun _ _ => []) c.scopes.scopes
+        (fun cenv1 xt' ps rb env N rid outer c6 c7 _ hinv hrb h7 =>
+          recordBody5_step k (coreTypeOf lists) lists hk cenv1 N rb rid ps gv outer xt' {} env c6 c7
+            (coreTypeOf_oracle k lists hk cenv1 N rid ps gv outer xt' {}) hinv hrb h7)
+        cenv _ [] s c c' h.tab h.outer rfl (XInv.nil _ _) (DInv.nil _ _) rfl hc hrun
       exact ⟨q, h.after ht hs hkeep⟩
   · have hb1 : (s.kind == SyntaxKind.Class) = false := by simpa using hk1
     simp only [hb1, Bool.false_eq_true, if_false] at hchk
@@ -593,11 +598,13 @@ theorem indexStatement5_step (lists : Bool) (hk : lists = true → 0 < k) (cenv 
         cases hb : Ast.defRecordBody s with
         | none => rw [hb] at hd; cases hd
         | some rb0 =>
-          obtain ⟨q, ht, hs, _⟩ := indexDefG_step k cenv (coreRecordBody5 (coreTypeOf lists) lists cenv gv) gv []
-            (fun rb env N rid outer c6 c7 hinv hrb h7 =>
-              recordBody5_step k (coreTypeOf lists) lists hk cenv N rb rid [] gv outer [] env c6 c7
-                (coreTypeOf_oracle k lists hk cenv N rid [] gv outer []) hinv hrb h7)
-            s c c' h.tab h.outer (XInv.nil _ _) (fun rb hrb => by rw [hb] at hd hrb; cases hrb; exact hd) hrun
+          obtain ⟨q, ht, hs, _⟩ := indexDefG_step k cenv (coreRecordBody5 (coreTypeOf lists) lists cenv gv) gv [] {}
+            (fun _ => []) c.scopes.scopes
+            (fun rb env N rid outer c6 c7 _ hinv hrb h7 =>
+              recordBody5_step k (coreTypeOf lists) lists hk cenv N rb rid [] gv outer [] {} env c6 c7
+                (coreTypeOf_oracle k lists hk cenv N rid [] gv outer [] {}) hinv hrb h7)
+            s c c' h.tab h.outer rfl (XInv.nil _ _) rfl (fun _ _ _ _ _ _ _ _ => DInv.nil _ _)
+            (fun rb hrb => by rw [hb] at hd hrb; cases hrb; exact hd) hrun
           exact ⟨q, h.after ht (hs (by rw [hb]; rfl)) hkeep⟩
       · simp only [hd, Bool.false_eq_true, if_false] at hchk
         cases hchk
